@@ -1,5 +1,4 @@
 """C18 - scalar XML value conversions are exact (E2 pysym: FP64/cvc5 + z3; E1 CrossHair in harness/C18.py)."""
-import os
 import random as _random
 import time as _time
 from fractions import Fraction
@@ -184,7 +183,7 @@ class _TsAbstract:
 
     def admits(self, inp, out, timeout_ms=10000):
         """Translator validation: the real function's behaviour on a concrete input must be a behaviour of the model."""
-        z3, be = self.z3, self.be
+        be = self.be
         import math
         mag = abs(float(inp))
         win = (int(math.floor(math.log2(mag))) - 11, int(math.floor(math.log2(mag))) + 12) if mag >= 1 else ()
@@ -797,7 +796,7 @@ META = {
                 'negative zero, zero with a positive exponent, float and int arguments of to_xml (rounded to 1-3 places by design)',
                 'Decimal.__str__ / float(Decimal) / format() are stubs with stated contracts in the pysym obligations (the real ones '
                 'run in the CrossHair digit-run obligations, for the digit patterns D^a . 0^b D^c 0^d only)',
-                'DecimalConverter.to_py: decimal.Decimal is a C type - texts are enumerated by selector from a 14-character pool, '
+                'DecimalConverter.to_py: decimal.Decimal is a C type - texts are enumerated by selector from a 13-character pool, '
                 'length <= 3 (quick) / 4 (thorough), not symbolic strings',
                 'durations: only duration_string (the divmod decomposition and the formatting, with timedelta as a stub) is decided; '
                 'parse_duration and the date/time functions (parse_date_time, XsdDateInformation.__str__) depend on re, '
@@ -846,7 +845,7 @@ def obligations(tier):
     tc = 60 if quick else 300
     maxn = 3 if quick else 4
     obs += [
-        Ob('C18.lex.integer', 'harness.C18', 'integer_lex', bind={'maxn': maxn}, timeout=150 if quick else 1200, functions=F_LEX[:2],
+        Ob('C18.lex.integer', 'harness.C18', 'integer_lex', bind={'maxn': maxn}, timeout=150 if quick else 1500, functions=F_LEX[:2],
            stubs=CH_STUB[:1],
            bounds=f'every text of <= {maxn} characters from the pool 0 1 9 + - _ space tab . e a U+0663 U+00A0 '
                   f'({sum(13 ** k for k in range(maxn + 1))} texts, chosen by selectors; int() on a symbolic str is concretised by CrossHair)',
@@ -861,9 +860,9 @@ def obligations(tier):
                   'SafetyClassification, AlertSignalPresence)',
            claim='EnumConverter.to_py(s) returns => s is exactly a literal of the enumeration; to_xml gives s back; literals are accepted'),
     ]
-    obs.append(Ob('C18.lex.decimal', 'harness.C18', 'decimal_lex', bind={'maxn': maxn}, timeout=150 if quick else 1200,
+    obs.append(Ob('C18.lex.decimal', 'harness.C18', 'decimal_lex', bind={'maxn': maxn}, timeout=150 if quick else 1500,
                   functions=F_LEX[6:], stubs=CH_STUB,
-                  bounds=f'every text of <= {maxn} characters from the pool "01.-+eE_ NaInf" ({sum(14 ** k for k in range(maxn + 1))} texts, '
+                  bounds=f'every text of <= {maxn} characters from the pool "01.-+e_ NaInf" ({sum(13 ** k for k in range(maxn + 1))} texts, '
                          'chosen by selectors; decimal.Decimal is C code and runs concretely)',
                   claim='DecimalConverter.to_py(text) returns => text is an xsd:decimal literal and the Decimal has its value'))
     for neg in (False, True):
